@@ -16,8 +16,8 @@ from pathlib import Path
 
 ROOT = Path(__file__).resolve().parent.parent
 LEAN = ROOT / "lean"
-EVID = ROOT / "evidence"
-REPLAYS = ROOT / "replays"
+EVID = Path(os.environ.get("VERIF_EVIDENCE_DIR", ROOT / "evidence"))      # redirected by tools/try_patch_wt.sh only
+REPLAYS = Path(os.environ.get("VERIF_REPLAY_DIR", ROOT / "replays"))
 KNOWN = ROOT / "known_findings.txt"
 ALLOWED_AXIOMS = {"propext", "Classical.choice", "Quot.sound"}
 FORBIDDEN = re.compile(r"\b(sorry|admit|native_decide|bv_decide|implemented_by|unsafe)\b|^\s*axiom\s|maxHeartbeats\s+0", re.M)
@@ -215,7 +215,10 @@ def write_replay(prop: str, payload: dict) -> str:
     h = hashlib.sha1(body.encode()).hexdigest()[:12]
     path = REPLAYS / f"{prop}-{h}.json"
     path.write_text(body)
-    return str(path.relative_to(ROOT))
+    try:
+        return str(path.relative_to(ROOT))
+    except ValueError:
+        return str(path)
 
 
 def finish(out: Outcome, audit: dict, level_note: str = "") -> int:
@@ -264,6 +267,7 @@ def finish(out: Outcome, audit: dict, level_note: str = "") -> int:
         "checker_cmd": "cd /verif/lean && lake build && lake env lean IoosQc/Audit.lean   # #print axioms for every property theorem",
         "trusted_base": TRUSTED_BASE,
         "theorems": names,
+        "axioms_used": sorted({a for n in names for a in audit.get("theorems", {}).get(n, [])}),
         "evaluations": out.evaluations,
         "distinct_nontrivial": len(out.nontrivial),
         "distinct": len(out.distinct),
